@@ -29,6 +29,17 @@ from flowmark.formats.flowmark_markdown import flowmark_markdown  # noqa: E402
 _WS = re.compile(r"\s+")
 
 
+
+def _code_content(raw, fenced):
+    """Content of a code block as its lines joined by LF.  A fenced block keeps every line between the fences, blank
+    ones at the end included (every line carries its terminator, so "no line" and "one empty line" differ); an indented block never
+    ends in blank lines."""
+    if not fenced:
+        r = raw.rstrip("\n")
+        return r + "\n" if r else ""
+    return raw if (raw.endswith("\n") or not raw) else raw + "\n"
+
+
 def T(s):
     return ("T", (("s", s),), ())
 
@@ -126,7 +137,7 @@ def _a_blk(el):
     if isinstance(el, (block.FencedCode, block.CodeBlock)):
         lang = getattr(el, "lang", "") or ""
         extra = getattr(el, "extra", "") or ""
-        return ("CODE", (("lang", lang), ("extra", extra), ("content", el.children[0].children.rstrip("\n"))), ())
+        return ("CODE", (("lang", lang), ("extra", extra), ("content", _code_content(el.children[0].children, fenced=isinstance(el, block.FencedCode)))), ())
     if isinstance(el, block.ThematicBreak):
         return ("HR", (), ())
     if isinstance(el, block.LinkRefDef):
@@ -252,7 +263,7 @@ def norm_b(text):
         if ty in ("fence", "code_block"):
             info = t.info.strip() if ty == "fence" else ""
             m = re.match(r"(\S*)\s*(.*)", info, re.S)
-            return ("CODE", (("lang", m.group(1)), ("extra", m.group(2).strip()), ("content", t.content.rstrip("\n"))), ())
+            return ("CODE", (("lang", m.group(1)), ("extra", m.group(2).strip()), ("content", _code_content(t.content, fenced=(ty == "fence")))), ())
         if ty == "hr":
             return ("HR", (), ())
         if ty == "blockquote_open":
